@@ -22,16 +22,19 @@ def plans(quick):
             dict(family='kinds', opts=opts,
                  gen=dict(steps=4, slots=1, lists=[['k1']], restart=False), cover_limit=150, walks=40,
                  sim=dict(num=100, depth=12, lists=[['k1'], ['k2']])),
+            # nested runs across namespaces: a task named like the namespace it reads from
+            dict(family='levels', opts=opts,
+                 gen=dict(steps=3, slots=1, lists=[['v2']], restart=False), cover_limit=80, walks=30),
             # name mode: results (and their records) are named after the config; config names that extend one another
             dict(family='names', name_mode=True, opts=opts,
                  gen=dict(steps=4, slots=1, rcs=['model', 'model.large'], lists=[['model'], ['model.large']], restart=False),
                  cover_limit=120, walks=40),
         ]
     return [
-        dict(family=f, opts=opts, checks=[dict(steps=5, slots=2) if f != 'kinds' else dict(steps=4, slots=1)],
+        dict(family=f, opts=opts, checks=[dict(steps=5, slots=2) if f not in ('kinds', 'levels') else dict(steps=4, slots=1)],
              gen=dict(steps=4, slots=1), walks=300, walk_len=16,
              sim=dict(num=700, depth=18))
-        for f in ('chain', 'mounts', 'diamond', 'kinds')
+        for f in ('chain', 'mounts', 'diamond', 'kinds', 'levels')
     ]
 
 
